@@ -30,6 +30,15 @@ rules hold everywhere, except that a pending status bit may be cleared inside a 
 acknowledges the delivered request).  save -> load keeps a target that lies *behind* the cycle counter
 (where tag " stale-target"); a machine reset re-arms the timers one period after the machine's own cycle counter
 and the grid is re-anchored there.
+
+Keyboard dimension (every second run of either flavour, own value stream): the host strobes keyboard columns, holds
+keys down and releases them on the machines' real keyboard matrices (CoreRuntime scans the matrix whenever MTI fires,
+so a debounced key asserts KEYI on the very tick a timer fires; PCE500Emulator scans once per instruction), harness
+acknowledgements may clear KEYI too, the keyboard interrupt enable is a configuration, and the program may
+acknowledge requests itself with MV (ISR),v (v without timer bits).  The verdicts are unchanged -- in particular
+"the target moved during the step ==> the status bit is set after the step" -- except in a step that executed such a
+store (observed: address of the executed instruction): there ISR bits 0/1 are not judged on PCE500Emulator (tick
+first, store second) and only "fired ==> bit set" is kept on CoreRuntime (store first, tick second).
 """
 
 from __future__ import annotations
@@ -44,6 +53,8 @@ from .. import rsclient
 BASE = 0xB8100
 NOP, WAIT, HALT, MV_IL, RETI, JR_BACK = 0x00, 0xEF, 0xDE, 0x09, 0x01, 0x13
 JR_SELF = (0x13, 0x02)
+PRE_DIRECT, MV_IMEM_IMM, ISR_OFF = 0x32, 0xCC, 0xFC     # 32 CC FC vv = MV (ISR),vv  (firmware acknowledging requests)
+ISR_STORE = (PRE_DIRECT, MV_IMEM_IMM, ISR_OFF)
 # "irq" flavour: main program, interrupt handler and both vectors in a ROM image (a RAM program would be wiped by
 # PCE500Emulator.reset(), and without a ROM overlay the Python machine's vector fetch at 0xFFFFA aliases IMEM)
 ROM_BASE, ROM_SIZE = 0xC0000, 0x40000
@@ -122,7 +133,7 @@ def selftest() -> None:
 
     want = {bytes([NOP]): ("NOP", 1), bytes([WAIT]): ("WAIT", 1), bytes([HALT]): ("HALT", 1),
             bytes([MV_IL, 5]): ("MV", 2), bytes(JR_SELF): ("JR", 2), bytes([RETI]): ("RETI", 1),
-            bytes([JR_BACK, 0x21]): ("JR", 2)}
+            bytes([JR_BACK, 0x21]): ("JR", 2), bytes(ISR_STORE + (0x04,)): ("MV", 4)}
     for code, (mn, ln) in want.items():
         r = TP.tokens(code + b"\x00" * 8)
         if r is None or TP.mnemonic(r[0]) != mn or r[1] != ln:
@@ -130,6 +141,10 @@ def selftest() -> None:
     r = TP.tokens(bytes([MV_IL, 5]) + b"\x00" * 8)
     if "IL" not in "".join(t[1] for t in r[0]):
         raise HarnessError("template 09 nn is not MV IL,n")
+    r = TP.tokens(bytes(ISR_STORE + (0x04,)) + b"\x00" * 8)
+    txt = "".join(t[1] for t in r[0]).replace(" ", "")
+    if "(ISR),04" not in txt:
+        raise HarnessError(f"template 32 CC FC nn is not MV (ISR),n: {txt}")
     _checked = True
 
 
@@ -252,10 +267,96 @@ def gen_irq_case(seed: int, mti: int, sti: int, enabled: bool, idx: int, snapsho
             "handler": handler, "imr": st.choice(IMR_CHOICES), "steps": steps}
 
 
+def _boundaries(code: List[int]) -> List[int]:
+    """instruction boundaries of a generated code sequence (templates: 09 nn, 13 nn, 32 CC FC nn, else 1 byte)"""
+    out, i = [], 0
+    while i < len(code):
+        out.append(i)
+        b = code[i]
+        i += 2 if b in (MV_IL, JR_BACK) else (4 if b == PRE_DIRECT else 1)
+    out.append(len(code))
+    return out
+
+
+KEY_NAMES = ("KEY_F1", "KEY_A", "KEY_ENTER", "KEY_Q", "KEY_SPACE")
+ISR_KEYI = 0x04
+
+
+def add_keyboard(case: Dict[str, Any], seed: int, tag: int, idx: int) -> Dict[str, Any]:
+    """Keyboard dimension of a machine run (own value stream, the rest of the case is left as generated): in every
+    second run the host strobes keyboard columns, holds keys down / releases them at generated steps (a held key on a
+    strobed column is debounced by the machines' keyboard scans -- CoreRuntime scans whenever MTI fires -- and then
+    asserts KEYI in the middle of a step), the harness-level acknowledgements may also clear KEYI (a latched KEYI is
+    then re-asserted), and the keyboard interrupt enable is a configuration (off in 1 of 8).  A step becomes
+    [clear mask, action, key ops] with key ops = [["kd"|"ku", key name] | ["kol"|"koh", value], ...]."""
+    st = Stream(seed, 0xC13CB, int(case["mti"]), int(case["sti"]), idx, tag, int(bool(case["enabled"])))
+    if st.below(2):
+        return case
+    steps = [list(x) for x in case["steps"]]
+    n = len(steps)
+    kops: Dict[int, List[List[Any]]] = {}
+    strobe = st.below(8)
+    if strobe <= 5:
+        kops.setdefault(0, []).extend([["kol", 0xFF], ["koh", 0x07]])
+    elif strobe == 6:
+        kops.setdefault(0, []).extend([["kol", st.u32() & 0xFF], ["koh", st.u32() & 0x07]])
+    # strobe == 7: columns as the machine leaves them at power-on
+    down: List[str] = []
+    k = st.below(6)
+    while k < n:
+        if down and st.chance(1, 2):
+            name = down.pop(st.below(len(down)))
+            kops.setdefault(k, []).append(["ku", name])
+        else:
+            name = st.choice(KEY_NAMES)
+            if name not in down:
+                down.append(name)
+            kops.setdefault(k, []).append(["kd", name])
+        if st.chance(1, 12):
+            kops.setdefault(k, []).extend([["kol", st.choice((0xFF, 0x00, st.u32() & 0xFF))]])
+        k += 1 + st.below(max(2, n // 3))
+    # firmware acknowledging requests by its own store: MV (ISR),v with v = 0 / KEYI kept / upper bits only (never
+    # sets a timer status bit), inserted at instruction boundaries of the main program and, in the irq flavour, at
+    # the handler's entry -- the store and the timer tick of the same instruction then meet inside one step
+    prog = list(case["prog"])
+    handler = list(case["handler"]) if "handler" in case else None
+
+    def store() -> List[int]:
+        return list(ISR_STORE) + [st.choice((0, 0, 0, ISR_KEYI, st.u32() & 0xF8, st.u32() & 0xFC))]
+
+    if st.below(3) != 0:
+        tail, body = prog[-2:], prog[:-2]
+        for _ in range(1 + st.below(3)):
+            bounds = _boundaries(body)
+            at = st.choice(bounds)
+            body[at:at] = store()
+        if handler is not None:
+            tail = [JR_BACK, len(body) + 2]             # irq flavour: JR back to the first instruction
+        prog = body + tail
+        if handler is not None and st.chance(1, 3):
+            handler = store() + handler
+    ack_keyi = st.below(3)     # 0: KEYI is never acknowledged by the harness, 1: together with timer bits, 2: often
+    for i, stp in enumerate(steps):
+        if ack_keyi == 1 and stp[0]:
+            stp[0] |= ISR_KEYI
+        elif ack_keyi == 2 and st.chance(1, 3):
+            stp[0] |= ISR_KEYI
+        if i in kops:
+            while len(stp) < 2:
+                stp.append(0)
+            stp.append(kops[i])
+    out = dict(case, steps=steps, keys=True, prog=prog)
+    if handler is not None:
+        out["handler"] = handler
+    if st.below(8) == 0:
+        out["kbirq"] = False
+    return out
+
+
 def gen_from_config(seed: int, cfg: Tuple[Any, ...]) -> Dict[str, Any]:
     if cfg and cfg[0] == "irq":
-        return gen_irq_case(seed, *cfg[1:])
-    return gen_machine_case(seed, *cfg)
+        return add_keyboard(gen_irq_case(seed, *cfg[1:]), seed, 1, int(cfg[4]))
+    return add_keyboard(gen_machine_case(seed, *cfg), seed, 0, int(cfg[3]))
 
 
 def plan(seed: int, tier: str) -> List[Tuple[Any, ...]]:
@@ -321,6 +422,7 @@ def run_py_machine(case: Dict[str, Any], snap_path: str) -> Any:
     start_pc = MAIN if irq else BASE
     imr = int(case.get("imr", 0)) & 0xFF
     exec_flags: List[bool] = []
+    exec_pcs: List[int] = []
 
     def fresh() -> Any:
         e = PCE500Emulator(perfetto_trace=False, save_lcd_on_exit=False)
@@ -331,6 +433,7 @@ def run_py_machine(case: Dict[str, Any], snap_path: str) -> Any:
         def execute_instruction(pc: int, _e: Any = e, _orig: Any = orig) -> Any:
             # observation only: was the instruction executed inside an interrupt handler?
             exec_flags.append(bool(getattr(_e, "_in_interrupt", False)))
+            exec_pcs.append(int(pc) & 0xFFFFFF)
             return _orig(pc)
 
         e.cpu.execute_instruction = execute_instruction   # instance attribute, this emulator only
@@ -356,7 +459,11 @@ def run_py_machine(case: Dict[str, Any], snap_path: str) -> Any:
                 int(emu.cpu.regs.get(RegisterName.PC)), bool(emu._in_interrupt),
                 int(emu.irq_counts.get("total", 0))]
 
-    for clear, action in case["steps"]:
+    if "kbirq" in case:
+        emu._kb_irq_enabled = bool(case["kbirq"])     # a snapshot field; the maintainers' tests set it directly
+
+    for stp in case["steps"]:
+        clear, action = int(stp[0]), int(stp[1])
         if clear:
             cur = emu.memory.read_byte(isr_addr) & 0xFF
             emu.memory.write_byte(isr_addr, cur & ~clear & 0xFF)
@@ -375,10 +482,23 @@ def run_py_machine(case: Dict[str, Any], snap_path: str) -> Any:
             emu.memory.write_byte(imr_addr, imr)
             emu.memory.write_byte(isr_addr, 0)
             obs.append({"reset": look()})
+        for kop in (stp[2] if len(stp) > 2 else ()):
+            if kop[0] == "kd":
+                emu.press_key(str(kop[1]))
+            elif kop[0] == "ku":
+                emu.release_key(str(kop[1]))
+            elif kop[0] == "kol":
+                emu.memory.write_byte(INTERNAL_MEMORY_START + 0xF0, int(kop[1]) & 0xFF)
+            elif kop[0] == "koh":
+                emu.memory.write_byte(INTERNAL_MEMORY_START + 0xF1, int(kop[1]) & 0xFF)
+            else:
+                raise HarnessError(f"bad key op {kop!r}")
         in_before = bool(emu._in_interrupt)
         del exec_flags[:]
+        del exec_pcs[:]
         emu.step()
-        obs.append(look() + [exec_flags[-1] if exec_flags else in_before])
+        # [.., in_exec, address of the instruction this step executed (None: none, e.g. idle HALT cycle)]
+        obs.append(look() + [exec_flags[-1] if exec_flags else in_before, exec_pcs[-1] if exec_pcs else None])
     return {"obs": obs}
 
 
@@ -391,6 +511,8 @@ def run_rust_machine(cases: List[Dict[str, Any]], snap_path: str) -> List[Any]:
                      stack=STACK_TOP)
             if "timer_base" in c:
                 r["timer_base"] = c["timer_base"]
+            if "kbirq" in c:
+                r["kbirq"] = bool(c["kbirq"])
             if is_irq(c):
                 r["base"] = MAIN
                 r["imr"] = int(c.get("imr", 0)) & 0xFF
@@ -414,7 +536,8 @@ def judge_machine(case: Dict[str, Any], impl: str, res: Any) -> Tuple[List[Viola
     out: List[Violation] = []
     facts = {"fires": 0, "halt_idle": 0, "wait_multi": 0, "steps": 0, "max_step_cycles": 0, "deliveries": 0,
              "handler_steps": 0, "snap_in_handler": 0, "stale_restore": 0, "wait_unmasked_multi": 0,
-             "catch_up_after_handler": 0, "reset_after_run": 0, "derailed": 0}
+             "catch_up_after_handler": 0, "reset_after_run": 0, "derailed": 0, "keyi_rise": 0,
+             "keyi_rise_with_fresh_fire": 0, "isr_store_steps": 0, "isr_store_fire": 0}
     if not isinstance(res, dict) or "obs" not in res or res.get("error") or res.get("panic"):
         msg = str(res.get("panic") or res.get("error") if isinstance(res, dict) else res)
         out.append(Violation("crash", impl, "machine raised/panicked", case, msg[:300]))
@@ -426,6 +549,10 @@ def judge_machine(case: Dict[str, Any], impl: str, res: Any) -> Tuple[List[Viola
     irq = is_irq(case)
     imr = int(case.get("imr", 0)) & 0xFF
     regions = ((MAIN, MAIN + len(case["prog"])), (HANDLER, HANDLER + len(case["handler"]))) if irq else ()
+    code: Dict[int, int] = {}
+    for a0, data in (rom_segments(case)[:2] if irq else [(BASE, list(case["prog"]))]):
+        for i, b in enumerate(data):
+            code[a0 + i] = int(b)
     dead = [False, False]
     after_snap = False
     prev: Optional[List[Any]] = None     # observation after the previous step
@@ -450,7 +577,8 @@ def judge_machine(case: Dict[str, Any], impl: str, res: Any) -> Tuple[List[Viola
                              f"step#{k} (mti={case['mti']} sti={case['sti']} enabled={case['enabled']}"
                              f"{' imr=%#04x' % imr if irq else ''}): {detail}"))
 
-    for k, (clear, action) in enumerate(steps):
+    for k, stp in enumerate(steps):
+        clear, action = int(stp[0]), int(stp[1])
         isr_before = last_isr & ~clear & 0xFF
         if action == 1:
             o = next(it, None)
@@ -508,6 +636,13 @@ def judge_machine(case: Dict[str, Any], impl: str, res: Any) -> Tuple[List[Viola
         irqs = int(o[7]) if len(o) > 7 else 0
         # in_exec: the instruction of this step ran inside an interrupt handler, i.e. with the timers gated
         in_exec = bool(o[8]) if len(o) > 8 else False
+        # the instruction of this step is the program's own ISR acknowledgement (MV (ISR),v; v never has a timer bit):
+        # the two machines order that store and the timer tick of the step differently (Python ticks first, CoreRuntime
+        # stores first), so the ISR timer bits after such a step say nothing about firing -- not judged for this step
+        xpc = o[9] if len(o) > 9 else None
+        isr_store = xpc is not None and tuple(code.get(int(xpc) + i) for i in range(3)) == ISR_STORE
+        if isr_store:
+            facts["isr_store_steps"] += 1
         if irq and not any(lo_ <= int(o[5]) <= hi_ for lo_, hi_ in regions):
             # the program counter left main program and handler: nothing generated is being executed any more
             # (vectoring/stack problems are C12's subject); stop judging this run
@@ -521,6 +656,9 @@ def judge_machine(case: Dict[str, Any], impl: str, res: Any) -> Tuple[List[Viola
         if o[4] and prev is not None and prev[4]:
             facts["halt_idle"] += 1
         crossed_total = 0
+        keyi_rose = bool(isr & ISR_KEYI) and not (isr_before & ISR_KEYI)
+        if keyi_rose:
+            facts["keyi_rise"] += 1
         for ti in range(2):
             bit = 1 << ti
             p = periods[ti]
@@ -538,6 +676,9 @@ def judge_machine(case: Dict[str, Any], impl: str, res: Any) -> Tuple[List[Viola
             moved = tgt != old
             if moved:
                 facts["fires"] += 1
+                if keyi_rose and not was:
+                    # KEYI was asserted during the very step in which this timer fired with its status bit clear
+                    facts["keyi_rise_with_fresh_fire"] += 1
                 crossed_total += max(1, (tgt - old) // p)
                 if (tgt - old) // p > 1:
                     facts["wait_multi"] += 1
@@ -556,6 +697,16 @@ def judge_machine(case: Dict[str, Any], impl: str, res: Any) -> Tuple[List[Viola
             elif tgt > hi_b:
                 fail(ti, "cadence", "boundary consumed before the cycle counter reached it",
                      f"cycle {last_c}->{c}: target {tgt}, smallest boundary > {c} is {hi_b}", k)
+            elif isr_store:
+                if moved:
+                    facts["isr_store_fire"] += 1
+                    if impl == "rust-machine" and not now:
+                        # CoreRuntime executes the store first and ticks the instruction's cycle afterwards (lib.rs
+                        # step: executor.execute, then the per-cycle tick loop), so a timer that fired during this
+                        # step has set its bit after the store
+                        fail(ti, "status-bit", "fired but status bit not set",
+                             f"cycle {last_c}->{c}: target {old} -> {tgt}, ISR {isr_before:#04x} -> {isr:#04x} "
+                             f"(step executed MV (ISR),{code.get(int(xpc) + 3, 0):#04x})", k)
             elif moved and not now:
                 fail(ti, "status-bit", "fired but status bit not set",
                      f"cycle {last_c}->{c}: target {old} -> {tgt}, ISR {isr_before:#04x} -> {isr:#04x}", k)
